@@ -547,6 +547,13 @@ def histories(tier, seed):
     # run() cut into pieces by `timeout` under a deterministic clock (2 ticks = one loop iteration)
     add([('run', dict(n_eff=200, timeout=T)) for T in [2, 3, 2, 5, 2, 2, 4] * 8] + [('run', dict(n_eff=200))], n_live=100, n_batch=40,
         tick_clock=True)
+    # a new sampler object resumed from the file after every second loop iteration (deterministic clock), exploration discarded:
+    # every iteration boundary is a stop point, in particular the one at which exploration ends and the first sampling batches
+    add([x for _ in range(70) for x in (('run', dict(n_eff=120, discard_exploration=True, timeout=3)), ('resume',))] +
+        [('run', dict(n_eff=120, discard_exploration=True))], n_live=60, n_batch=30, tick_clock=True, file=True)
+    # ... the same with a configuration that ends exploration without emptied shells
+    add([x for _ in range(60) for x in (('run', dict(n_eff=120, discard_exploration=True, timeout=3)), ('resume',))] +
+        [('run', dict(n_eff=120, discard_exploration=True))], n_live=100, n_batch=50, tick_clock=True, file=True)
     # resumes from the checkpoint file in exploration (with >= 11 bounds) and in the sampling phase
     add([('run', dict(n_eff=300, n_like_max=900)), ('resume',), ('run', dict(n_eff=300, n_like_max=1700)), ('resume',),
          ('run', dict(n_eff=300)), ('resume',), ('toggle2',), ('run', dict(n_eff=450)), ('resume',), ('run', dict(n_eff=500))],
